@@ -9,7 +9,7 @@ Strings that may contain arbitrary characters travel as `.`-separated code point
 * `collect.fs pre=<path> tree=<D:name|F:name|U , …>` → `ok` | `bad-op`       (preorder, `U` closes a directory)
 * `collect.prog path=<path> imports=<stem,…> stmts=<stmt;…>` → `ok`
      stmt = `d|obj|bind|fname|p1,p2|k:v,k:v|tag`  `w|obj|name|id|k:v,…`  `v|bind`;  v = `b0 b1 i<int> f<enc> s<enc> o`
-* `collect.run root=<path> paths=<path,…> ignore=<enc,…> taskfiles=<enc,…> preloaded=<a.b,…> perm=<k>`
+* `collect.run root=<path> paths=<path,…> ignore=<enc,…> taskfiles=<enc,…> preloaded=<a.b,…> perm=<k> [ptasks=<path>|<enc name>|<tag>,…]`
      → `exit=<n> fails=<n> files=<n> tasks=<enc short name>:<tag>,… exec=<tag>,…`   (sorted)
 * `collect.walk root=… paths=… ignore=…`             → `files=<path,…>` (in walk order)
 * `collect.pmatch path=<path> pat=<enc>`             → `1` | `0`
@@ -98,7 +98,10 @@ def mkEnv? (st : CollectSt) (a : Args) : Option Env := do
   pure { fs := fs,
          cfg := { root := pathOf (a.get "root"), paths := (splitList (a.get "paths")).map pathOf, ignore := ign, taskFiles := tf },
          progs := st.progs,
-         preloaded := (splitList (a.get "preloaded")).map (fun s => s.splitOn ".") }
+         preloaded := (splitList (a.get "preloaded")).map (fun s => s.splitOn "."),
+         ptasks := ← (splitList (a.get "ptasks")).mapM (fun (t : String) => match t.splitOn "|" with
+            | [f, n, tag] => do let n ← decS? n; let tg ← tag.toNat?; pure (pathOf f, n, tg)
+            | _ => none) }
 
 def collectHandle (st : CollectSt) (cmd : String) (a : Args) : CollectSt × String :=
   match cmd with
